@@ -251,6 +251,33 @@ def check_call_sites(rep, prog):
     return ascii_only
 
 
+def check_file_output(rep, fm):
+    """--json: the file holds exactly the document text - it is written to a file opened with truncation"""
+    rule = "C06.R5.file-is-the-document"
+    n = 0
+    for e in fm.events:
+        if e.kind != "methcall" or e.data[1] not in ("write", "writelines"):
+            continue
+        if not any(isinstance(x, Op) and x.op == "call:" + PT + "parsePEL" for a in e.data[2] for x in walk(a)):
+            continue
+        n += 1
+        recv = fm.norm(e.data[0])
+        ok, why = False, "written to %r" % (recv,)
+        if isinstance(recv, Op) and recv.op == "file":
+            mode = recv.args[1] if len(recv.args) > 1 else Const("r")
+            ok = is_const(mode, str) and "w" in mode.v and "+" not in mode.v and "a" not in mode.v
+            why = "opened with mode %r" % (mode,)
+        elif any(isinstance(x, Op) and x.op == "call:os.open" for x in walk(recv)):
+            o = [x for x in walk(recv) if isinstance(x, Op) and x.op == "call:os.open"][0]
+            flags = o.args[1] if len(o.args) > 1 else None
+            ok = flags is not None and any(repr(x) == "<os.O_TRUNC>" for x in walk(flags))
+            why = "os.open flags %r lack O_TRUNC" % (flags,)
+        rep.check(ok, rule, "%s: the document is written to a freshly truncated file" % e.func.split(".")[-1], e.func, e.node,
+                  "the JSON text is written into a file that is not truncated first (%s): an existing longer file keeps its old "
+                  "tail and no longer parses" % why, node=e.node)
+    rep.floor("JSON file writes", n, 1)
+
+
 def run(rep, prog, thorough):
     rep.explanation = (
         "prettyPrint is summarised: the rewrite must be line[:k] + blanks + line[k:] on lines obtained by split('\\n'); the "
@@ -261,6 +288,9 @@ def run(rep, prog, thorough):
         "are rejected.")
     ascii_only = check_call_sites(rep, prog)
     check_prettyprint(rep, prog, ascii_only)
-    from .c09 import check_all_separator
+    from .c09 import check_all_separator, check_decoder_prints
     fm = FullMain(prog)
     check_all_separator(rep, fm, "C06.R1.call-sites")
+    check_file_output(rep, fm)
+    # nothing but the JSON documents reaches stdout: no decoder / library function prints there (rule shared with C09)
+    check_decoder_prints(rep, prog, rule="C06.R4.stdout-only-json")
